@@ -39,7 +39,7 @@ SIMPLE_SALTS = ["s1", "salt", "csdvs887", "", "v2-exp", "HAGFEUAKVDU", "user_exp
 # strings / salts that are perfectly legal DSL content but hostile to naive embedding in generated code: quotes, a trailing
 # backslash, braces (str.format / f-string syntax), percent, compatibility characters (NFKC folds them to ASCII syntax)
 TRICKY_STRS = ["C:\\", "a\\", "\\", "it's", 'say "hi"', "{x}", "{}", "{", "}", "{0}", "%s", "%(a)s", "100%", "tab\there", "\\n",
-               "\uff02q\uff02", "\uff07", "\ufb01", "x\u00b2", "\u2126", "a\rb", "#", "$a", "`a`", "a;b", "\\'", "{{}}", "é", "日本", "Washington, DC", "a,b", ", ", "x, y)", "(1, 2)", "1, 2", "[a]", "name='a'", "a\tb", " pad ", "2", "2.0"]
+               "\uff02q\uff02", "\uff07", "\ufb01", "x\u00b2", "\u2126", "a\rb", "#", "$a", "`a`", "a;b", "\\'", "{{}}", "é", "日本", "Washington, DC", "a,b", ", ", "x, y)", "(1, 2)", "1, 2", "[a]", "name='a'", "a\tb", " pad ", "2", "2.0", '"""', "'''", 'say """hi"""', '""', "a\\\\", "#!", "x.pyab"]
 SALT_TEMPLATES = ["{%s}", "{%s}:v1", "x{%s!r}", "%%(%s)s", "${%s}", "{%s:>4}", "{0}{%s}"]
 
 
@@ -50,6 +50,14 @@ def idents(pool):
 # --------------------------------------------------------------------------- weights
 @st.composite
 def weight_text(draw, kind="nice"):
+    w = draw(_weight_text(kind))
+    if draw(st.integers(0, 15)) == 0:
+        w = "0" * draw(st.integers(1, 2)) + w  # column-aligned spelling (010, 007.5): still a decimal number
+    return w
+
+
+@st.composite
+def _weight_text(draw, kind="nice"):
     if kind == "nice":
         return draw(st.sampled_from(["1", "1", "2", "3", "4", "5", "10", "0", "0.5", "3.4", "1.0",
                                      "0.25", "7", "100", "0.0", "2.5", "9", "50"]))
